@@ -1385,4 +1385,8 @@ theorem evParseHost_labels (a : Bytes) (hd : a.head? ≠ some dot) :
       · exact g1
     · exact hacc0
 
+/-- number of '/' the literal parts of an evhost pattern contain -/
+def litSlashes (pieces : List EvPiece) : Nat :=
+  (pieces.map fun p => match p with | .lit s => s.count slash | _ => 0).sum
+
 end LtVerif
